@@ -76,6 +76,9 @@ pub fn c08_gen_cfg() -> GenCfg {
 
 pub struct C08;
 impl Check for C08 {
+    fn fuzz_runs(&self) -> u64 {
+        10000
+    }
     fn id(&self) -> &'static str {
         "C08"
     }
@@ -829,6 +832,9 @@ fn declared_names(text: &str) -> Vec<String> {
 }
 
 impl Check for C15 {
+    fn fuzz_runs(&self) -> u64 {
+        10000
+    }
     fn id(&self) -> &'static str {
         "C15"
     }
